@@ -149,6 +149,10 @@ def fixture_cases(n0):
 def check(run):
     rng = random.Random(run.seed)
     run.model_check("mc/MC_Text.tla", "mc/MC_Text.cfg")
+    if run.tier == "thorough":
+        # no bound on the number of calls (history hidden by the VIEW): fixpoint over (object, last call) states
+        r = run.model_check("mc/MC_Text.tla", "mc/MC_Text_all.cfg", coverage=False)
+        run.notes["unbounded_histories"] = {"cfg": "mc/MC_Text_all.cfg", "distinct_states": r["states"], "fixpoint": True}
     hists, st = tlc_generate("mc/MC_Text.tla", "mc/Gen_Text_%s.cfg" % run.tier)
     run.notes["generator"] = {"cfg": "mc/Gen_Text_%s.cfg" % run.tier, "histories": len(hists), **st}
     cases = []
